@@ -235,6 +235,7 @@ class TaskRef(Ref):
         self.learn_map = {}
         self._alpha = None
         self.spec = None
+        self.cool = set()           # model threads that are cooling (active, not running) during the walk
 
     def init(self):
         return (self.bm.init(), ((), ()))
@@ -308,7 +309,7 @@ class TaskRef(Ref):
                 # nOS-V allows it): recorded as known finding D17, matched through the cause tag.
                 why = why + " [cause=nanos6-body-region-reentry]"
             if len(ssk) >= self.depth + 2:
-                return ("ok", None, "legal (beyond explored depth)")
+                return ("ok", None, why + " (beyond explored depth)")
             ssk.append("B")
         elif o == "e":
             if not ssk or ssk[-1] != "B":
@@ -316,7 +317,7 @@ class TaskRef(Ref):
             ssk.pop()
         # bound the search
         if len(dict(bs2[0])) > 4:
-            return ("ok", None, "legal (state bound)")
+            return ("ok", None, why + " (state bound)")
         return ("ok", (bs2, tuple(tuple(ssk) if i == k else ss[i] for i in range(2))), why)
 
     def learn(self, s, disp):
@@ -384,6 +385,11 @@ class TaskRef(Ref):
                     if ty in vals:
                         vals[ty] = (vals[ty], v)
             for ty, v in vals.items():
+                if k in self.cool:
+                    # a cooling thread is active but not running: only the subsystem row (tracked by the active thread) shows
+                    d[("thread", self.rows[k], ty)] = v if ty == self.T["ss"] else 0
+                    d[("cpu", self.cpurows[k], ty)] = 0
+                    continue
                 d[("thread", self.rows[k], ty)] = v
                 d[("cpu", self.cpurows[k], ty)] = v
         return d
@@ -398,9 +404,13 @@ class LearnExplorer(Explorer):
         return Explorer._check_display(self, s, disp, hist, ev, label)
 
 
-def e2e_walk(ctx, build, scratch, exe, cat, m, tier, flags=("-l",)):
+def e2e_walk(ctx, build, scratch, exe, cat, m, tier, flags=("-l",), cool=False):
+    """cool: the first model thread is cooling (active, not running) during the whole walk.  Task events only need an active
+    thread, so the accepted histories are the same; its running-thread rows and its CPU's rows show nothing meanwhile."""
     model = "nosv" if m == "V" else "nanos6"
     tagx = "" if tuple(flags) == ("-l",) else " " + " ".join(flags)
+    if cool:
+        tagx += " cooling"
     rank = 2
     spec = [{"name": "A", "cpus": [(0, 0), (1, 1), (2, 2)],
              "procs": [{"pid": 100, "threads": [101, 102, 103], "rank": rank, "nranks": 4}]}]
@@ -421,6 +431,8 @@ def e2e_walk(ctx, build, scratch, exe, cat, m, tier, flags=("-l",)):
             prefix.append(Ev(hs, "VTC", u32(3, 7)))
         else:
             prefix.append(Ev(hs, "6Tc", u32(3, 7)))
+        if cool:
+            prefix.append(Ev(sidx[0], "OHc"))
         try:
             pp = PrefixPool(pool, prefix)
         except PrefixRefused as e:
@@ -428,8 +440,11 @@ def e2e_walk(ctx, build, scratch, exe, cat, m, tier, flags=("-l",)):
             return
         ref = TaskRef(m, sidx, rows=[1, 2], cpurows=[1, 2], rank=rank, depth=2)
         ref.spec = spec
+        if cool:
+            ref.cool = {0}
+        dmax = (4 if tier == "quick" else 6) if cool else (5 if tier == "quick" else 8)
         ex = LearnExplorer(ctx, pp, ref, name="e2e-" + model + tagx, report_props={"C07"}, check_time=False,
-                           max_depth=(5 if tier == "quick" else 8), max_states=(4000 if tier == "quick" else 60000))
+                           max_depth=dmax, max_states=(4000 if tier == "quick" else 60000))
         st = ex.run()
         gids = {str(k[1]): v for k, v in ref.learn_map.items()}
         ctx.part("e2e-" + model + tagx, learned_gid_by_task=gids, body_subsystem_value=ref.body_ss)
@@ -521,6 +536,65 @@ def e2e_walk_2p(ctx, build, scratch, exe, cat, m, tier):
         pool.close()
 
 
+def type_labels(ctx, scratch, exe, cat, m):
+    """The type a running task shows is a number; the .pcf must give that number the label the type was created with, for the
+    types of every process of every loom (two looms, one and two processes, types with equal ids and different labels)."""
+    model = "nosv" if m == "V" else "nanos6"
+    tyid = 11 if m == "V" else 36
+    spec = [{"name": "A", "cpus": [(0, 0)], "procs": [{"pid": 100, "app": 1, "threads": [101], "rank": 0, "nranks": 4}]},
+            {"name": "B", "cpus": [(0, 0), (1, 1)], "procs": [{"pid": 200, "app": 2, "threads": [201], "rank": 1, "nranks": 4},
+                                                              {"pid": 300, "app": 2, "threads": [301], "rank": 2, "nranks": 4}]}]
+    req = {"ovni": cat["ovni"]["version"], model: cat[model]["version"]}
+    system = emusrv.System(spec, require=req)
+    pool = ServerPool(exe, system.write(scratch.sub("trace-labels-" + model)), ["-l"])
+    try:
+        s = pool.local.streams
+        sidx = [s["loom.A/proc.100/thread.101"], s["loom.B/proc.200/thread.201"], s["loom.B/proc.300/thread.301"]]
+        names = [("alpha", "beta"), ("gamma", "delta"), ("epsilon", "zeta")]
+        hist = [Ev(sidx[0], "OHx", i32(0, 101) + i64(0)), Ev(sidx[1], "OHx", i32(0, 201) + i64(0)), Ev(sidx[2], "OHx", i32(1, 301) + i64(0))]
+        pay = (lambda t: u32(t, 0)) if m == "V" else (lambda t: u32(t))
+        want = {}
+        for k in range(3):
+            for j, (tyi, t) in enumerate(((7, 1), (8, 2))):
+                hist.append(Ev(sidx[k], m + "Yc", b"", 1, u32(tyi) + names[k][j].encode() + b"\0"))
+                hist.append(Ev(sidx[k], m + "Tc", u32(t, tyi)))
+        shown = {}
+        for k in range(3):
+            for j, t in enumerate((1, 2)):
+                h2 = hist + [Ev(sidx[k], m + "Tx", pay(t))]
+                hres, _ = pool.local.expand(h2, [], echo=True)
+                ctx.add(evaluations=1, transitions=len(h2))
+                if not hres.get("ok"):
+                    ctx.violation("%s, three processes in two looms: executing task %d of process %d refused: %s" % (model, t, k, hres.get("msg")),
+                                  {"engine": "E3", "check": "type-labels", "model": model, "history": [e.line() for e in h2]}, {"kind": "type-labels"})
+                    return
+                v = [val for (n, row, tm, ty, val) in hres["lines"] if n == "thread" and row == k + 1 and ty == tyid]
+                shown[(k, j)] = v[-1] if v else None
+                hist = h2 + [Ev(sidx[k], m + "Te", pay(t))]
+        hist += [Ev(sidx[k], "OHe") for k in range(3)]
+        _, res = pool.local.expand(hist, [Fin(1)])
+        ctx.add(evaluations=1, transitions=len(hist))
+        if not (res[0].ok and res[0].files):
+            ctx.violation("%s, three processes in two looms: complete trace refused: %s" % (model, res[0].msg),
+                          {"engine": "E3", "check": "type-labels", "model": model, "history": [e.line() for e in hist]}, {"kind": "type-labels"})
+            return
+        bad = []
+        for nm in ("thread", "cpu"):
+            labels = pv.parse_pcf(res[0].files[nm + ".pcf"]).get(tyid, (None, {}))[1]
+            for (k, j), v in sorted(shown.items()):
+                lab = labels.get(v)
+                if v in (None, 0) or lab is None or names[k][j] not in lab:
+                    bad.append("%s.pcf: process %d type %r shown as %r, labelled %r" % (nm, k, names[k][j], v, lab))
+        if len(set(shown.values())) < 6:
+            bad.append("six differently labelled types shown with the values %r" % (sorted(shown.values(), key=str),))
+        if bad:
+            ctx.violation("%s, three processes in two looms: %s" % (model, "; ".join(bad[:3])),
+                          {"engine": "E3", "check": "type-labels", "model": model, "history": [e.line() for e in hist]}, {"kind": "type-labels"})
+        ctx.part("type-labels-" + model, shown={"%d/%s" % (k, names[k][j]): v for (k, j), v in shown.items()})
+    finally:
+        pool.close()
+
+
 def run(prop, tier):
     ctx = Ctx("C07", tier, "model_checking")
     scratch = Scratch("C07")
@@ -537,11 +611,15 @@ def run(prop, tier):
             # the same acceptance condition and rows with the breakdown view switched on
             if not ctx.out_of_time(0.6):
                 e2e_walk(ctx, build, scratch, exe, cat, m, tier, flags=("-l", "-b"))
+            # the same acceptance condition while the first thread is cooling
+            if not ctx.out_of_time(0.7):
+                e2e_walk(ctx, build, scratch, exe, cat, m, tier, cool=True)
         for m in ("V", "6"):
             if ctx.out_of_time(0.8):
                 ctx.cap("two-process end-to-end walk %s not started" % m)
                 continue
             e2e_walk_2p(ctx, build, scratch, exe, cat, m, tier)
+            type_labels(ctx, scratch, exe, cat, m)
         ctx.cov["rule"] = ("(A) task.c/body.c: for every flag combination of three tasks, breadth-first search over the reference body machine, every "
                            "operation x thread x task x body probed in every state, verdict and complete module state compared; (B) real emulator: "
                            "nOS-V (two normal + one parallel task) and Nanos6 task events on two threads, all task/body ids incl. illegal ones, "
